@@ -200,10 +200,16 @@ package db19
 // call2: a disabled trigger is not called; an enabled one is called at most once (exactly once when the
 // trigger function exists); an exception thrown by the trigger leaves call2 as a panic (it is wrapped,
 // never swallowed)
+// gDisabledAtCall: the table's disable count at the instant the trigger code is entered (snapshot taken right
+// before Thread.Call): an enabled trigger runs with its own table still enabled, so the rows the trigger itself
+// writes to that table - and concurrent writers - are announced too
+//@ ghost var gDisabledAtCall int
 //@ func (t *triggers) call2(th, tran, table, oldrec, newrec)
 //@   nosafety
 //@   requires t != nil
-//@   modifies all, gCalls, gBlockThrew, gBlockRet
+//@   modifies all, gCalls, gBlockThrew, gBlockRet, gDisabledAtCall
+//@   before_call Thread).Call gDisabledAtCall = t.disabled[table]
+//@   ensures! trigger_runs_enabled: gCalls > old(gCalls) ==> gDisabledAtCall == 0
 //@   ghost found bool = fn != nil
 //@   ensures! disabled_not_called: old(t.disabled[table]) != 0 ==> gCalls == old(gCalls)
 //@   ensures! enabled_called_once: old(t.disabled[table]) == 0 ==> gCalls == old(gCalls) + (found ? 1 : 0)
